@@ -158,7 +158,7 @@ def run(tier, seed):
         rng.shuffle(expanded)
         # partition the first-level prefixes over the workers
         nparts = 4 if tier == "quick" else 16
-        cap = 60 if tier == "quick" else 1500
+        cap = 400 if tier == "quick" else 6000
         for k in range(nparts):
             part = expanded[k::nparts]
             if part:
